@@ -27,6 +27,13 @@ class Boom(Exception):
     pass
 
 
+class BoomBase(BaseException):
+    """not an Exception subclass (what KeyboardInterrupt, SystemExit and GeneratorExit are)"""
+
+
+BOOMS = (Boom, BoomBase)
+
+
 def values():
     return gen.opaque(
         st.one_of(
@@ -43,14 +50,15 @@ def values():
 def block(depth):
     disp = st.builds(lambda v: ["disp", v], values())
     bad = st.builds(lambda t, c, nested: ["bad", t, c, nested], st.sampled_from(BAD), st.booleans(), st.booleans())
-    simple = [disp, disp, disp, bad, st.just(["raise"]), st.builds(lambda k: ["reenter", k], st.integers(0, 5)), st.just(["again"]), st.just(["again"])]
+    simple = [disp, disp, disp, bad, st.just(["raise"]), st.just(["raise", "base"]), st.builds(lambda k: ["reenter", k], st.integers(0, 5)), st.just(["again"]), st.just(["again"])]
     if depth == 0:
         return st.lists(st.one_of(*simple), max_size=4)
     inner = block(depth - 1)
+    wc = st.builds(lambda b, plain: ["withcopy", b, plain], inner, st.booleans())
     w = st.builds(lambda name, ws, b: ["with", name, ws, b], st.sampled_from(["div", "span", "ul", "p", "div", "span", "br", "img", "input", "hr", "meta", "script", "style", "body", "head", "html", "x-widget", "pre"]), st.booleans(), inner)
     t = st.builds(lambda b: ["try", b], inner)
     # opaque(): keep the branch weights (a flattened one_of would make with-blocks rare)
-    stmt = st.one_of(gen.opaque(st.one_of(*simple)), w, w, gen.opaque(t))
+    stmt = st.one_of(gen.opaque(st.one_of(*simple)), w, w, w, gen.opaque(t), gen.opaque(wc))
     return st.lists(stmt, min_size=1, max_size=5)
 
 
@@ -174,6 +182,8 @@ def compare_children(tag, model, label):
     kids = list(tag.children)
     check(len(kids) == len(model), f"{label}: tag has {len(kids)} children, the model {len(model)}", [type(k).__name__ for k in kids], [m if m[0] != "obj" else ("obj", type(m[1]).__name__) for m in model])
     for i, (k, m) in enumerate(zip(kids, model)):
+        if m[0] == "any":
+            continue  # a copied nested object (copies are new objects)
         if m[0] == "text":
             check(type(k) is str and k == m[1], f"{label}: child {i} should be text {m[1]!r}", type(k).__name__)
         elif m[0] == "html":
@@ -187,6 +197,7 @@ class Interp:
         self.base_seen: list = []
         self.base_model: list = []
         self.active: list = []  # [{"tag":..., "kids": [...]}]
+        self.finished: list = []  # blocks that have ended, with the model of their children at that time
         self.stats = {"max_depth": 0, "exc_crossed": 0, "blocks": 0, "reentry": 0, "bad": 0, "raised_in_block": 0}
 
     returns = None
@@ -194,6 +205,55 @@ class Interp:
     def base(self, v):
         self.base_seen.append(v)
         return self.returns  # a front end's hook may hand back a display handle
+
+    def _block(self, tag, m, body_stmts, label, may_refuse):
+        h0 = sys.displayhook
+        orig = m.get("orig")
+        orig_before = list(orig["tag"].children) if orig else None
+        self.stats["blocks"] += 1
+        raised_inside = False
+        entered = False
+        try:
+            try:
+                cm = tag.__enter__()
+                entered = True
+            except RuntimeError:
+                check(may_refuse, "entering a fresh tag raised RuntimeError")
+                check(sys.displayhook is h0, "a refused entry changed the display hook")
+                self.stats["blocks"] -= 1
+                return
+            exc = (None, None, None)
+            try:
+                check(sys.displayhook is not h0, "entering a block did not install a hook")
+                self.active.append(m)
+                self.stats["max_depth"] = max(self.stats["max_depth"], len(self.active))
+                try:
+                    self.run(body_stmts)
+                except BOOMS as e:
+                    if isinstance(e, BoomBase):
+                        self.stats["base_exc_crossed"] = 1
+                    raised_inside = True
+                    self.stats["exc_crossed"] += 1
+                    exc = (type(e), e, e.__traceback__)
+                    raise
+                finally:
+                    self.active.pop()
+            finally:
+                swallowed = tag.__exit__(*exc)
+                check(not (raised_inside and swallowed), "an exception raised inside a with-block did not propagate out of the block")
+        finally:
+            if entered:
+                check(sys.displayhook is h0, "after the block exits sys.displayhook is not the hook that was installed when it was entered" + (" (exception raised inside)" if raised_inside else ""))
+                self.deliver(tag)
+                if self.active:
+                    self.active[-1]["last"] = tag
+                compare_children(tag, m["kids"], "block of " + label)
+                if orig is not None:
+                    now = list(orig["tag"].children)
+                    check(len(now) == len(orig_before) and all(a is b for a, b in zip(now, orig_before)), "values displayed in the block of a copy were appended to the tag it was copied from", len(orig_before), len(now))
+                if self.active:
+                    compare_children(self.active[-1]["tag"], self.active[-1]["kids"], "enclosing block")
+                self.finished.append({"tag": tag, "kids": list(m["kids"])})
 
     def deliver(self, obj):
         """model of handing obj to the currently installed hook"""
@@ -243,12 +303,12 @@ class Interp:
                 if not s[2]:
                     raise Boom("propagating TypeError from an invalid displayed value") from raised
             elif k == "raise":
-                raise Boom()
+                raise (BoomBase() if len(s) > 1 and s[1] == "base" else Boom())
             elif k == "try":
                 depth_before = len(self.active)
                 try:
                     self.run(s[1])
-                except Boom:
+                except BOOMS:
                     check(len(self.active) == depth_before, "harness: active stack not unwound")
             elif k == "reenter":
                 if not self.active:
@@ -272,31 +332,21 @@ class Interp:
                 if s[1] not in ("div", "span", "ul", "p"):
                     self.stats["special_block"] = 1
                 m = {"tag": tag, "kids": [("text", x) for x in init]}
-                h0 = sys.displayhook
-                self.stats["blocks"] += 1
-                raised_inside = False
-                try:
-                    with tag:
-                        check(sys.displayhook is not h0, "entering a block did not install a hook")
-                        self.active.append(m)
-                        self.stats["max_depth"] = max(self.stats["max_depth"], len(self.active))
-                        try:
-                            self.run(s[3])
-                        except Boom:
-                            raised_inside = True
-                            self.stats["exc_crossed"] += 1
-                            raise
-                        finally:
-                            self.active.pop()
-                    check(not raised_inside, "an exception raised inside a with-block did not propagate out of the block")
-                finally:
-                    check(sys.displayhook is h0, "after the block exits sys.displayhook is not the hook that was installed when it was entered" + (" (exception raised inside)" if raised_inside else ""))
-                    self.deliver(tag)
-                    if self.active:
-                        self.active[-1]["last"] = tag
-                    compare_children(tag, m["kids"], "block of <%s>" % s[1])
-                    if self.active:
-                        compare_children(self.active[-1]["tag"], self.active[-1]["kids"], "enclosing block")
+                self._block(tag, m, s[3], s[1], may_refuse=False)
+            elif k == "withcopy":
+                # a copy (copy.copy / tagify()) of a tag whose own block has ended is used as a block of its own: the
+                # library may refuse to enter it (nothing may change then) - if it enters, the copy collects, not the original
+                src = self.finished[-1] if self.finished else None
+                if src is None or any(a["tag"] is src["tag"] for a in self.active):
+                    continue
+                import copy as _copy
+
+                c = _copy.copy(src["tag"]) if s[2] else src["tag"].tagify()
+                if s[2] is False and any(kd[0] == "obj" and hasattr(kd[1], "tagify") and not isinstance(kd[1], h.Tag) for kd in src["kids"]):
+                    continue  # tagify() would expand harness objects: keep to plain copies there
+                m = {"tag": c, "kids": [kd if kd[0] != "obj" or not isinstance(kd[1], (h.Tag, h.MetadataNode)) else ("any", None) for kd in src["kids"]], "orig": src}
+                self.stats["copy_block"] = 1
+                self._block(c, m, s[1], "copy of <%s>" % src["tag"].name, may_refuse=True)
             else:
                 raise HarnessError("unknown statement " + repr(s))
 
@@ -343,7 +393,7 @@ def body(case, note):
         with contextlib.redirect_stdout(buf) if default else contextlib.nullcontext():
             try:
                 it.run(case["prog"])
-            except Boom:
+            except BOOMS:
                 pass
         check(sys.displayhook is base_hook, "at program end the display hook is not the outermost hook")
         check(not inner_seen, "a function that the installed hook merely wraps (functools.wraps) was called instead of the hook", len(inner_seen))
@@ -373,6 +423,8 @@ def body(case, note):
         "same-object-again" if s.get("again") else "",
         "decorated-hook" if (not default and case.get("wrapped_hook")) and s["blocks"] else "",
         "void-or-special-block-tag" if s.get("special_block") else "",
+        "copy-of-finished-tag-used-as-block" if s.get("copy_block") else "",
+        "non-Exception-BaseException-crossed-block" if s.get("base_exc_crossed") else "",
         "hook-returns-a-value" if case.get("hook_returns") and not default and s["exc_crossed"] else "",
         "self-rendering-str/number-subclass" if "'rich" in repr(case["prog"]) and s["blocks"] else "",
     )
@@ -385,5 +437,5 @@ RULE = (
 )
 
 CLAUSES = [
-    Clause("programs", body, strategy=case_strategy, quick=600, thorough=10000, shards_quick=4, required=("exception-crossed-block", "reentry", "invalid-display-in-block", "depth>=3", "default-hook", "falsy-hook", "same-object-again", "decorated-hook", "void-or-special-block-tag", "hook-returns-a-value", "self-rendering-str/number-subclass"), rule="see RULE"),
+    Clause("programs", body, strategy=case_strategy, quick=600, thorough=10000, shards_quick=4, required=("exception-crossed-block", "reentry", "invalid-display-in-block", "depth>=3", "default-hook", "falsy-hook", "same-object-again", "decorated-hook", "void-or-special-block-tag", "hook-returns-a-value", "self-rendering-str/number-subclass", "non-Exception-BaseException-crossed-block", "copy-of-finished-tag-used-as-block"), rule="see RULE"),
 ]
